@@ -45,10 +45,11 @@ CLAIMED = {
   text="Theorems (Coq): sf_seek returns the requested absolute frame and moves exactly the selected pointer(s), or returns -1 with a non-zero error and "
        "changes nothing else, or is a pure position query; zero-offset SEEK_CUR reports the next frame; any partition of a read into item/frame calls of "
        "any sizes delivers the same sequence as one sequential read (induction over the call list); after a successful seek to k the reads deliver frames "
-       "k, k+1, .... Tie: transcription check + script correspondence for the sample-granular encodings; for every block codec (IMA/MS ADPCM, GSM, G72x, "
+       "k, k+1, ...; the DPCM codec's own seek (dpcm_seek, decode-and-discard) delivers the sequential stream from a clear predictor, and the stale-predictor "
+       "case is refuted with a witness (latent: unreachable through the API of the pinned tree). Tie: K on xi.c (kernels, dpcm_seek called directly); transcription check + script correspondence for the sample-granular encodings; for every block codec (IMA/MS ADPCM, GSM, G72x, "
        "NMS, VOX, DWVW, DPCM, PAF24, SDS, ALAC) the position-function oracle compares every delivered item with an independent sequential decode after "
        "reads up to block boundaries, relative/absolute seeks with every whence, targets 0, F-1, F, block edges +-1.",
-  note="Trusted: as C05. The block-codec seek functions are decided by the oracle on the implementation, not by a theorem.",
+  note="Trusted: as C05. The block-codec seek functions other than dpcm_seek are decided by the oracle on the implementation, not by a theorem.",
   technique="Coq proof (induction over call lists) over the wrapper/default-seek model + transcription check + sequential-decode oracle",
   design_ref="DESIGN.md section 5 C06"),
  "C08": dict(
@@ -142,11 +143,13 @@ CLAIMED = {
        "exact whenever the low 32-w bits are zero (every width); stored bytes read back as the same code in both byte orders; the 8 KiB staging loops "
        "equal the per-sample map for EVERY length (induction over the refills); for any block length B, any per-block codec with dec(enc b) = b and "
        "any history of write calls the closed file decodes to the samples written followed by fewer than B zero samples (first N bit exact, "
-       "N <= F < N + B). Tie: C02's exhaustive conversion correspondence; the stored codes and frame count of every sample-granular file of the run "
+       "N <= F < N + B); the DPCM codecs of xi.c concretely (Dpcm.v, kernels as coded with their 16/8-bit wrap): any shorts, any partition into write calls, "
+       "any partition of the stored codes into read calls come back bit exact (16-bit), ints keep their top 16 / 8 bits. Tie: K on the eight DPCM kernels and "
+       "on XI files written / read through the API in random partitions beyond the staging buffer; C02's exhaustive conversion correspondence; the stored codes and frame count of every sample-granular file of the run "
        "are predicted by the model; write / close / re-open / read oracle over every lossless container x encoding x endian x caller type, channels 1 "
        "and max, N around every block boundary and 4097, full-range noise with only the unrepresentable low bits cleared, arbitrary finite float / "
        "double bit patterns.",
-  note="Trusted: Coq kernel, PcmConv.v / Endian.v / Stream.v, extraction, sfdrive. The concrete block codecs (ALAC, DWVW, DPCM, SDS and PAF24 packers) are "
+  note="Trusted: Coq kernel, PcmConv.v / Endian.v / Stream.v, extraction, sfdrive. The concrete block codecs (ALAC, DWVW, SDS and PAF24 packers) are "
        "abstract in the theorem and decided by the oracle. Known findings: PAF24 and SDS final block, ALAC_20/24 noise, ALAC_32, tiny SD2 files, trailing "
        "zero frames of header-less DWVW.",
   technique="Coq proof (per-sample round trips, staging-loop induction, generic block-stream theorem) + model prediction of stored codes + round-trip oracle",
@@ -165,7 +168,8 @@ CLAIMED = {
  "C07": dict(
   text="Theorems (Coq): for any block length, per-block codec and two histories of write calls with the same concatenated samples the written blocks and the "
        "flushed final block are identical (induction over the call lists); the staged conversion loops equal the per-sample map for every length, so "
-       "splitting a call cannot change the bytes; the PEAK value / position equals that of the concatenated signal for every partition. Oracle: byte length, "
+       "splitting a call cannot change the bytes; the PEAK value / position equals that of the concatenated signal for every partition; the DPCM writer of xi.c (predictor carried from call to "
+       "call) stores the same codes for every partition (K-tied). Oracle: byte length, "
        "header digest and data digest of the closed files for every writable container x encoding x channels{1,2,3} written as one call, one frame per "
        "call, 3+rest, random split, 161-frame calls, N-1+1, alternating item / frame variants, SFC_UPDATE_HEADER_NOW in between, process clock pinned.",
   note="Trusted: Coq kernel, Stream.v / Peak.v (encoders abstract and deterministic), the pinned clock (link-time wrap of time()). Concrete encoders and header "
